@@ -392,11 +392,17 @@ func runC16(p *Plan, res *Result) {
 			cls = "shared-concurrent-txn"
 		}
 		var lines []string
+		clause := "not-linearizable"
 		for _, op := range history {
 			lines = append(lines, fmt.Sprintf("[%d,%d] c%d %s", op.Call, op.Return, op.ClientId, e4bModel.DescribeOperation(op.Input, op.Output)))
+			if out, ok := op.Output.(e4bOutput); ok && strings.Contains(out.Err, "corrupted index") {
+				// a write that fails with "corrupted index" while another call creates that index: the symptom, on the
+				// writer's side, of index creation not being isolated from concurrent writes (a finding of its own)
+				clause, cls = "index-incomplete", "concurrent-writes"
+			}
 		}
 		_ = info
-		res.violate("C16", "not-linearizable", "not-linearizable/"+cls, 0,
+		res.violate("C16", clause, clause+"/"+cls, 0,
 			"no sequential order of the calls explains their results and the final state (a call that reported success lost its effect, or a conflicting call left one): %s", strings.Join(lines, " | "))
 	case porcupine.Unknown:
 		res.Stats["linearizability_inconclusive"]++
